@@ -184,12 +184,10 @@ func c09Expect(desc *zoekt.Repository, d Document) c09Exp {
 // the test machines (seconds instead of milliseconds), one at a time it is cheap.
 var c09AllocMu sync.Mutex
 
-func c09NewPool() *c09Pool {
-	return &c09Pool{content: newPostingsBuilder(1 << 20), name: newPostingsBuilder(1 << 20)}
-}
+func c09NewPool() *c09Pool { return &c09Pool{wb: wbNewPool()} }
 
 type c09Pool struct {
-	content, name *postingsBuilder
+	wb *wbPool // reused postings builders (white-box fast path, see wbpool_test.go)
 	// ShardBuilder.Write wraps its destination in a 1 MB bufio.Writer unless it already is one:
 	// a reusable one per worker avoids a 1 MB allocation per shard
 	w   *bufio.Writer
@@ -230,11 +228,8 @@ func c09BuildSimple(rp *c09Repo, pool *c09Pool) (data []byte, err error) {
 	}()
 	var b *ShardBuilder
 	if pool != nil {
-		pool.content.reset()
-		pool.name.reset()
-		b = newShardBuilderWithPostings(pool.content, pool.name)
-		if err := b.setRepository(&rp.desc); err != nil {
-			return nil, fmt.Errorf("setRepository: %w", err)
+		if b, err = pool.wb.newBuilder(&rp.desc); err != nil {
+			return nil, err
 		}
 	} else {
 		c09AllocMu.Lock()
@@ -284,21 +279,8 @@ func c09BuildCompound(shards [][]byte, pool *c09Pool) (data []byte, err error) {
 			return nil, fmt.Errorf("merge: %w", err)
 		}
 	} else {
-		pool.content.reset()
-		pool.name.reset()
-		sb = newShardBuilderWithPostings(pool.content, pool.name)
-		sb.indexFormatVersion = NextIndexFormatVersion
-		for _, d := range ds {
-			for docID := uint32(0); int(docID) < len(d.fileBranchMasks); docID++ {
-				if docID == 0 {
-					if err := sb.setRepository(&d.repoMetaData[0]); err != nil {
-						return nil, fmt.Errorf("merge: %w", err)
-					}
-				}
-				if err := addDocument(d, sb, 0, docID); err != nil {
-					return nil, fmt.Errorf("merge: %w", err)
-				}
-			}
+		if sb, err = pool.wb.mergeSimple(ds); err != nil {
+			return nil, fmt.Errorf("merge: %w", err)
 		}
 	}
 	data, err = pool.write(sb)
